@@ -18,6 +18,8 @@ for f in sorted(os.listdir(os.path.join(V, "checks"))):
     if c.get("not_applicable"):
         continue
     lake.append("OasisProofs.Props." + pid)
+    for e in c.get("extra_theorem_files", []):
+        lake.append(e.get("module") or e["file"][:-5].replace("/", "."))
     lake += ["om_" + x for x in c.get("models", [])]
     drivers += [d["name"] for d in c.get("drivers", [])]
     regen = regen or bool(c.get("regen"))
